@@ -17,6 +17,7 @@ import importlib.util
 import itertools
 import multiprocessing as mp
 import os
+import sys
 import types
 
 PRELUDE = '''
@@ -239,18 +240,225 @@ def check_shape(arg):
     return evaluations, nontrivial, violations
 
 
+# ---------------------------------------------------------------------------------------------------------------------
+# Second family: SOURCE-BACKED classes whose live state no longer agrees with what their source says.
+#
+# The module below is written to a file and registered in sys.modules, so inspect.getsourcefile() finds the source of
+# its classes and jedi pairs every live object with a syntax tree (MixedObject).  The source gives every attribute a
+# default (class body: a class / an instance / a nested class / a method; __init__: a class / an instance / a dict;
+# module level: a class / an instance / a list); at runtime a plan rebinds the attributes - on one instance, on the class itself
+# (monkeypatching), on a subclass, on a sub-subclass that also overrides in its source, on the module - to another
+# class, an instance of another class, a type()-created subclass, an instance of one, or a list.  "Interpreter
+# reflects the live objects": the oracle for every path is real Python (eval of the same expression; the family has no
+# user-defined hooks, so eval is harmless), never the source.
+#
+# Excluded sub-dimensions (unchanged jedi, /repo):
+#   * FINDING C13-mixed-function-attribute: an attribute of a source-backed instance / class that holds a plain function
+#     (or bound method) at runtime is answered from the SOURCE of the parent (MixedName.infer: `if
+#     compiled_value.is_function(): return ValueSet({MixedObject(compiled_value, v) for v in tree_values})`):
+#     `p.hook = other_function` is reported as the method the class body defines under that name, and a function
+#     stored under a name the source does not define (`p.dyn = function`) is reported as nothing at all ([]).
+#     -> no function-valued end point is generated / checked in this family.
+#   * sandbox (no typeshed): a name that static analysis does not find in the class bodies of the MRO of a source-backed
+#     CLASS receiver falls through to the filters of builtins.type, `assert x is not None` (klass.py get_filters) fails
+#     without stubs -> class receivers are only asked for the attributes their class bodies define (c_*).
+#   * sandbox (no typeshed): a list / dict display as class-body default (`c_list = [K0()]`) makes the static lookup that
+#     MixedName.infer always performs raise AttributeError("'CompiledValue' object has no attribute 'infer'") (the MRO
+#     of the stub-less builtin list), whatever is stored at runtime -> no container displays in class bodies.
+REBIND_SRC = """
+class Val:
+    def __init__(self, n=1):
+        self.n = n
+class K0:
+    def __init__(self):
+        self.w = Val(0)
+    def m0(self): return 1
+class K1:
+    def __init__(self):
+        self.w = Val(1)
+    def m1(self): return 1
+class K2:
+    def __init__(self):
+        self.w = Val(2)
+    def m2(self): return 1
+class Host:
+    c_cls = K0
+    c_inst = K0()
+    class c_nest:
+        def mn(self): return 1
+    def c_meth(self): return 1
+    def __init__(self):
+        self.i_cls = K0
+        self.i_inst = K0()
+        self.i_dict = {'k': K0(), 'c': K0}
+class Sub(Host):
+    pass
+class Over(Sub):
+    c_cls = K1
+    c_inst = K1()
+    def __init__(self):
+        Host.__init__(self)
+        self.i_inst = K1()
+class Holder:
+    def __init__(self, held):
+        self.held = held
+        self.row = [held, (held,)]
+m_cls = K0
+m_inst = K0()
+m_list = [K0(), K0]
+"""
+RB_SLOTS = ['c_cls', 'c_inst', 'c_nest', 'c_meth', 'i_cls', 'i_inst', 'i_dict', 'd_new']
+RB_MSLOTS = ['m_cls', 'm_inst', 'm_list', 'm_new']
+RB_TARGETS = ['none', 'obj', 'Host', 'Sub', 'Over']
+RB_KINDS = ['cls', 'inst', 'dyncls', 'dyninst', 'seq']
+RB_INSTANCES = ['p', 's', 'ov', 'fresh']
+RB_ROUTES = ['%s', 'h_%s.held', 'h_%s.row[0]', 'h_%s.row[1][0]', "rb['k'][%d]"]
+RB_VARIANTS = len(RB_TARGETS) * len(RB_KINDS)
+
+
+def rebind_plan(v):
+    """slot -> (target, kind, j): over the 25 variants every slot meets every (target, kind)"""
+    plan = {}
+    for i, slot in enumerate(RB_SLOTS):
+        plan[slot] = (RB_TARGETS[(i + v) % len(RB_TARGETS)], RB_KINDS[(i + v // len(RB_TARGETS)) % len(RB_KINDS)],
+                      1 + (i + v) % 2)
+    for i, slot in enumerate(RB_MSLOTS):
+        plan[slot] = ('none' if (i + v) % 3 == 0 else 'mod', RB_KINDS[(i + v) % len(RB_KINDS)], 1 + (i + v // 2) % 2)
+    return plan
+
+
+def build_rebound(v, source, idx):
+    """-> (namespaces, {instance name: position in rb['k']}, plan)"""
+    name = 'c13rb_%d_%d' % (os.getpid(), idx)
+    if source == 'file':
+        path = os.path.join(os.environ['STANDIN_TMP'], name + '.py')
+        with open(path, 'w') as f:
+            f.write(REBIND_SRC)
+        spec = importlib.util.spec_from_file_location(name, path)
+        mod = importlib.util.module_from_spec(spec)
+        sys.modules[name] = mod   # inspect.getsourcefile(<class>) looks the module up in sys.modules
+        spec.loader.exec_module(mod)
+    else:
+        mod = types.ModuleType(name)
+        exec(REBIND_SRC, mod.__dict__)
+    K = [mod.K0, mod.K1, mod.K2]
+
+    def make(kind, j):
+        dyn = type('Dyn%d' % j, (K[j],), {})
+        return {'cls': K[j], 'inst': K[j](), 'dyncls': dyn, 'dyninst': dyn(), 'seq': [K[j](), K[j]]}[kind]
+    plan = rebind_plan(v)
+    objs = {'p': mod.Host(), 's': mod.Sub(), 'ov': mod.Over()}
+    for slot, (target, kind, j) in sorted(plan.items()):
+        if target == 'obj':
+            setattr(objs['p'], slot, make(kind, j))
+            setattr(objs['ov'], slot, make(kind, 3 - j))
+        elif target == 'mod':
+            setattr(mod, slot, make(kind, j))
+        elif target != 'none':
+            setattr(getattr(mod, target), slot, make(kind, j))
+    objs['fresh'] = mod.Host()
+    ns = dict(objs, Host=mod.Host, Sub=mod.Sub, Over=mod.Over, mod=mod)
+    ns.update(('h_' + k, mod.Holder(o)) for k, o in objs.items())
+    return [ns, {'rb': {'k': [objs[k] for k in RB_INSTANCES]}}], plan
+
+
+def rebound_codes(v, seed, tier):
+    """base expressions: every instance x every slot (over rotating / all routes), classes x class-body slots, module"""
+    out = []
+    for ri, r in enumerate(RB_INSTANCES):
+        for si, slot in enumerate(RB_SLOTS):
+            picks = range(len(RB_ROUTES)) if tier == 'thorough' else [(ri + si + v + seed) % len(RB_ROUTES)]
+            out += [(RB_ROUTES[k] % (ri if '%d' in RB_ROUTES[k] else r)) + '.' + slot for k in picks]
+    out += ['%s.%s' % (c, slot) for c in ('Host', 'Sub', 'Over') for slot in RB_SLOTS if slot.startswith('c_')]
+    out += ['mod.' + slot for slot in RB_MSLOTS]
+    out += ['mod.%s.%s' % (c, slot) for c, slot in (('Host', 'c_cls'), ('Sub', 'c_inst'), ('Over', 'c_cls'))]
+    return out
+
+
+def check_rebound(arg):
+    idx, v, source, seed, tier = arg
+    import jedi
+    namespaces, plan = build_rebound(v, source, idx)
+    scope = {k: o for ns in namespaces for k, o in ns.items()}
+    project = jedi.Project(os.environ['STANDIN_TMP'])
+    violations, evaluations, nontrivial = [], 0, 0
+    old = jedi.settings.allow_unsafe_interpreter_executions, jedi.settings.cache_directory
+    jedi.settings.cache_directory = os.path.join(os.environ['STANDIN_TMP'], 'cache_%d' % os.getpid())
+    missing = object()
+
+    def real_of(code):
+        try:
+            return eval(code, dict(scope))
+        except (AttributeError, LookupError, TypeError):
+            return missing
+
+    def add(label, code, mode, observed):
+        violations.append({'label': label, 'observed': observed[:600],
+                           'input': 'rebound source=%s variant=%d plan=%r mode=%s code=%r' % (
+                               source, v, sorted((s, t) for s, t in plan.items() if t[0] != 'none'), mode, code)})
+    # one step behind every base expression: instantiate a stored class, index a stored container, read an attribute
+    # that the __init__ of the stored instance's class sets
+    todo = []
+    for code in rebound_codes(v, seed, tier):
+        real = real_of(code)
+        more = ['()'] if isinstance(real, type) else ['[0]', '[1]', '[1]()'] if type(real) in (list, tuple) else \
+            ["['k']", "['c']", "['k'].w"] if type(real) is dict else ['.w'] if real is not missing else []
+        todo += [(code + m, m) for m in [''] + more]
+    try:
+        for mode in ('safe', 'unsafe'):
+            jedi.settings.allow_unsafe_interpreter_executions = mode == 'unsafe'
+            for code, step in todo:
+                real = real_of(code)
+                if real is missing or isinstance(real, (types.FunctionType, types.MethodType)):
+                    continue   # absent attribute; FINDING C13-mixed-function-attribute (see above)
+                want = (real.__name__, 'class') if isinstance(real, type) else (type(real).__name__, 'instance')
+                try:
+                    got = sorted({(d.name, d.type) for d in jedi.Interpreter(code, namespaces, project=project).infer()})
+                    evaluations += 1
+                    nontrivial += bool(got)
+                    if got != [want]:
+                        add('infer on a plain attribute / builtin container path does not report the stored object',
+                            code, mode, 'expected %r (what real Python finds there), got %r' % (want, got))
+                    if type(real).__module__ != 'builtins' and not step.endswith(')'):
+                        names = {c.name for c in jedi.Interpreter(code + '.', namespaces, project=project).complete()}
+                        evaluations += 1
+                        nontrivial += bool(names)
+                        if set(dir(real)) - names:
+                            add("names after 'obj.' do not include everything in dir(obj)", code + '.', mode,
+                                'missing: %r' % sorted(set(dir(real)) - names))
+                except Exception as e:   # a crashing query reports nothing about the stored object either
+                    add('Interpreter query on a live object raised', code, mode, '%s: %s' % (type(e).__name__, e))
+    finally:
+        jedi.settings.allow_unsafe_interpreter_executions, jedi.settings.cache_directory = old
+    return evaluations, nontrivial, violations
+
+
 def _init_worker(repo):
     import sys
     sys.path.insert(0, repo)   # the tree under test, as in standins.runner
 
 
+def rebound_variants(seed, tier):
+    """(variant, source): thorough = all 25 plans x file/exec; quick = 5 file-backed plans (stride 6: the five differ in
+    the target rotation AND in the kind rotation) + 1 exec-created one"""
+    if tier == 'thorough':
+        return [(v, src) for v in range(RB_VARIANTS) for src in ('file', 'exec')]
+    vs = [(6 * k + seed) % RB_VARIANTS for k in range(5)]
+    return [(v, 'file') for v in vs] + [(vs[seed % 5], 'exec')]
+
+
+def _task(arg):
+    return (check_rebound if arg[0] == 'rebound' else check_shape)(arg[1:])
+
+
 def run(repo, seed, tier):
     all_shapes = list(enumerate(shapes()))
     chosen = [(i, s, seed, tier) for i, s in all_shapes if tier == 'thorough' or (i + seed) % 5 == 0]
+    rebound = [(i, v, src, seed, tier) for i, (v, src) in enumerate(rebound_variants(seed, tier))]
     # spawned (not forked) workers: after a fork of the jedi-laden parent the same work costs 2x user, 20x system time
     with mp.get_context('spawn').Pool(min(16, os.cpu_count() or 4), initializer=_init_worker,
                                       initargs=(repo,)) as pool:
-        results = pool.map(check_shape, chosen, chunksize=1)
+        results = pool.map(_task, [('rebound',) + a for a in rebound] + [('shape',) + a for a in chosen], chunksize=1)
     violations = [v for r in results for v in r[2]]
     counts, kept = {}, []
     for v in violations:
@@ -270,12 +478,24 @@ def run(repo, seed, tier):
                     'counters must stay empty. Both modes: completion after "obj." (4 routes to the object, 2 to the '
                     'class, the two holders) must cover dir(obj); infer on <= %d plain attribute / builtin-container '
                     'paths (<= 4 steps) must name type(real object) (stdlib-typed end points skipped, either name '
-                    'accepted for a class with a custom metaclass). distinct_nontrivial = evaluations with a non-empty '
-                    'answer.' % (len(chosen), len(all_shapes), ncodes,
-                                 '/'.join(METHODS + (MORE_METHODS if tier == 'thorough' else [])),
-                                 40 if tier == 'quick' else 400),
+                    'accepted for a class with a custom metaclass). Second family, %d of %d rebinding plans: a module '
+                    'written to a file and registered in sys.modules (classes with findable source -> MixedObject; one '
+                    'more plan / all plans again exec-created) gives class-body, __init__ and module-level defaults (class, '
+                    'instance, nested class, method, dict, list); at runtime every attribute is rebound on an instance / the class / a '
+                    'subclass / a sub-subclass overriding in its source / the module, or newly added, to another class, '
+                    'an instance, a type()-created subclass, an instance of one, or a list. infer on instance.attr (5 '
+                    'routes: name, attribute of a source-backed holder, its list / tuple items, dict/list item), '
+                    'Class.attr (3 classes), module.attr, module.Class.attr and one step behind (call of a stored class, '
+                    'item of a stored container, attribute of a stored instance) must name what real Python (eval) finds '
+                    'there, completion after it must cover dir() of it; function-valued end points excluded (finding '
+                    'C13-mixed-function-attribute). distinct_nontrivial = evaluations with a non-empty answer.' % (
+                        len(chosen), len(all_shapes), ncodes,
+                        '/'.join(METHODS + (MORE_METHODS if tier == 'thorough' else [])),
+                        40 if tier == 'quick' else 400, len(rebound), 2 * RB_VARIANTS),
             'samples': [{'shape': chosen[0][1], 'code': codes(chosen[0][0], seed, tier)[1], 'mode': 'safe',
                          'oracle': 'no counted call'},
                         {'shape': chosen[-1][1], 'code': 'box["ns"].inner.', 'oracle': 'names >= dir(obj)'},
-                        {'code': "box['k'][0].items[1][2]", 'oracle': "infer -> ('Val', 'instance')"}],
+                        {'code': "box['k'][0].items[1][2]", 'oracle': "infer -> ('Val', 'instance')"},
+                        {'rebinding plan': rebind_plan(rebound[0][1]), 'code': rebound_codes(rebound[0][1], seed, tier)[0],
+                         'oracle': 'infer -> name / kind of eval(code) in real Python'}],
             'violations': kept, 'violation_counts': counts}
